@@ -97,9 +97,9 @@ class Ops:
         s = z3.Solver()
         s.set("timeout", timeout)
         if cheap:
-            s.add([a for a in st.pc if self.is_cheap(a)])
+            s.add([a for a in st.pc if self.is_cheap(a) and not self.is_heavy(a)])
         else:
-            s.add(st.pc)
+            s.add([a for a in st.pc if not self.is_heavy(a)])
         s.add(z3.Not(f))
         return s.check() == z3.unsat
 
@@ -131,10 +131,38 @@ class Ops:
         self._ent_cache[i] = ok
         return ok
 
+    _HEAVY_KINDS = None
+
+    def is_heavy(self, a):
+        """formula with float <-> real/int conversions (exact mixed comparisons, int(x) of a float, float(i)): these make
+        the path-exploration queries slow.  Dropping such hypotheses from a feasibility or an entailment question is sound
+        (more paths are explored / fewer type facts are found); the obligations themselves always use the full path condition."""
+        i = ("h", a.get_id())
+        c = self._ent_cache.get(i)
+        if c is not None:
+            return c
+        if Ops._HEAVY_KINDS is None:
+            Ops._HEAVY_KINDS = {getattr(z3, n) for n in ("Z3_OP_FPA_TO_REAL", "Z3_OP_FPA_ROUND_TO_INTEGRAL", "Z3_OP_FPA_TO_FP", "Z3_OP_TO_INT")}
+        seen, todo, heavy = set(), [a], False
+        while todo:
+            e = todo.pop()
+            if e.get_id() in seen:
+                continue
+            seen.add(e.get_id())
+            if z3.is_app(e):
+                if e.decl().kind() in Ops._HEAVY_KINDS:
+                    heavy = True
+                    break
+                todo.extend(e.children())
+            elif z3.is_quantifier(e):
+                todo.append(e.body())
+        self._ent_cache[i] = heavy
+        return heavy
+
     def feasible(self, st, extra=None, timeout=3000):
         s = z3.Solver()
         s.set("timeout", timeout)
-        s.add(st.pc)
+        s.add([a for a in st.pc if not self.is_heavy(a)])
         if extra is not None:
             s.add(extra)
         return s.check() != z3.unsat
@@ -208,6 +236,27 @@ class Ops:
                 if self.entails(st, self.is_type(sv.e, "ref:" + o), timeout=1000):
                     return o
         return None
+
+    # ------------------------------------------------------------ numbers of mixed type
+    def num_cmp(self, op, a, b):
+        """Python's exact comparison of two numbers given as V terms (int/bool/float in any mix): ints compare as
+        integers, floats by IEEE rules (NaN compares false), an int and a float by exact real value, an infinity is
+        beyond every int.  op in '<', '<=', '>', '>='.  The caller makes sure both are numbers."""
+        V = self.V
+
+        def as_int(v):
+            return z3.If(V.is_bool(v), z3.If(V.b(v), 1, 0), V.i(v))
+        fa, fb = V.f(a), V.f(b)
+        ia, ib = as_int(a), as_int(b)
+        ra, rb = z3.ToReal(ia), z3.ToReal(ib)
+        I = {"<": lambda x, y: x < y, "<=": lambda x, y: x <= y, ">": lambda x, y: x > y, ">=": lambda x, y: x >= y}[op]
+        F = {"<": z3.fpLT, "<=": z3.fpLEQ, ">": z3.fpGT, ">=": z3.fpGEQ}[op]
+        pos_inf, neg_inf = z3.And(z3.fpIsInf(fb), z3.fpIsPositive(fb)), z3.And(z3.fpIsInf(fb), z3.fpIsNegative(fb))
+        a_pos_inf, a_neg_inf = z3.And(z3.fpIsInf(fa), z3.fpIsPositive(fa)), z3.And(z3.fpIsInf(fa), z3.fpIsNegative(fa))
+        less = op in ("<", "<=")
+        int_flt = z3.If(z3.fpIsNaN(fb), False, z3.If(pos_inf, less, z3.If(neg_inf, not less, I(ra, z3.fpToReal(fb)))))
+        flt_int = z3.If(z3.fpIsNaN(fa), False, z3.If(a_pos_inf, not less, z3.If(a_neg_inf, less, I(z3.fpToReal(fa), rb))))
+        return z3.If(V.is_flt(a), z3.If(V.is_flt(b), F(fa, fb), flt_int), z3.If(V.is_flt(b), int_flt, I(ia, ib)))
 
     # ------------------------------------------------------------ truthiness
     def truthy(self, st, sv):
